@@ -94,6 +94,7 @@ type LoopInfo struct {
 	variant    Term
 	hasVar     bool
 	headerEnv  *Env
+	rangeCell  *ssa.Alloc // rangeindex cell (naive form)
 	rangeIdx   *ssa.Phi   // rangeindex phi, if any
 	rangeLen   ssa.Value  // the len compared against
 	rangeNext  *ssa.Next  // map/string iterator
@@ -131,7 +132,9 @@ type FnCtx struct {
 	counters    map[string]int
 	fresh       int
 
-	volatile    *WriteSet
+	volatile    *WriteSet // active volatile set (nil before any go statement on the path)
+	volatileSet *WriteSet
+	afterGo     map[*ssa.BasicBlock]bool
 	callOrd     map[string]int
 	callSites   map[ssa.CallInstruction][]string
 	callOrdOf   map[ssa.CallInstruction]map[string]int
@@ -146,6 +149,7 @@ type FnCtx struct {
 	arith       bool
 	localAllocs map[string][]*ssa.Alloc
 	closureOf   map[string]*ssa.MakeClosure // cell name -> single MakeClosure stored
+	storeOrd    map[*ssa.Store]int
 	bounded     int                         // >0: unroll loops this many times instead of cutting (refutation only)
 }
 
